@@ -148,10 +148,9 @@ func (wl *WaitList) Commit(db *iavl.MutableTree, version int64) error {
 			}
 			db.Set(path, data)
 		} else {
+			// the emptied model stays cached: until the committed tree is switched to the new version a
+			// concurrent read-only query would load the previous list again and leave it in the cache
 			db.Remove(path)
-			wl.lock.Lock()
-			delete(wl.list, address)
-			wl.lock.Unlock()
 		}
 		w.lock.RUnlock()
 	}
